@@ -1514,7 +1514,8 @@ theorem C17_clean_line_end_lf_real (o : Nat) (a : List Char) (h : CleanEndLF (le
   the outer `trim()`, step / paragraph text by `text()`, equal values / modifiers / reference data,
   diagnostics of the same kind); `FillerIn lF l`, `CompFiller cF c`, `TimerFiller`, `QtyFiller` — a
   text leaf / component / timer / quantity of the round-trip grammar with block comments and blanks
-  inserted behind a blank of its name, alias, note, unit; `ParaIns` — filler inserted in a line of a
+  inserted behind a blank of its name, alias, note, unit (since wave 10 also of its TEXT VALUE, `ValFiller`);
+  `ParaIns` — filler inserted in a line of a
   `>` paragraph; `StrLine` — a complete source line. -/
 
 /-- **`is_text_empty` of an assembled run** is decided by the characters its tokens contribute to
@@ -1609,7 +1610,8 @@ theorem C17_events_loose_same_recipe_modes_off {α : Type} [Arith α] (ws : Char
     comment shows nothing between two blanks that `text_trimmed` collapses).
     NOT covered: a comment directly in front of the unit of an ADVANCED_UNITS quantity written without
     `%` (`{1 [- c -]kg}`) — there the real parser changes its reading (finding O5, repaired on branch
-    w5advfix); `QtyFiller` only inserts into units written with `%`.
+    w5advfix); `QtyFiller` only inserts into units written with `%` and (since wave 10) into text values,
+    which under ADVANCED_UNITS without `%` start with a word (`advSafe`) so that the advanced form declines.
     The recipe level (step loop, block, document, analysis) is `C17_filler_in_component_bodies_same_recipe`. -/
 theorem C17_ingredient_filler_in_body {α : Type} [Arith α] (cF c : AComp) (hF : CompFiller cF c) (p' p : CPad) (s' s : BP α)
     (hcs : s'.cs = s.cs) (hext : s'.ext = s.ext) (hsp : s.cs.uws ' ' = true)
@@ -1651,7 +1653,9 @@ theorem C17_timer_filler_in_body {α : Type} [Arith α] (cF c : ATimer) (hF : Ti
 
 /-- **`parse_quantity` with filler inside the unit** (`{1%big [- c -] cup}`): the same value, the same
     lock, the unit with the same `text_trimmed()`, no diagnostic, the outer parser untouched — under
-    both settings of ADVANCED_UNITS (the advanced form declines at once: a `%` is present). -/
+    both settings of ADVANCED_UNITS (the advanced form declines at once: a `%` is present).
+    Since wave 10 `QtyFiller` also admits filler behind a blank of a TEXT value (`{a [- c -] few%pinches}`,
+    `ValFiller`; spelled out as `C17_parse_quantity_filler_in_text_value`), so this theorem became stronger. -/
 theorem C17_parse_quantity_filler_in_unit {α : Type} [Arith α] (qF q : AQty) (hF : QtyFiller qF q) (p : QPad) (outer : BP α)
     (hsp : outer.cs.uws ' ' = true) (hq : q.ok outer.cs = true) (hp : p.ok outer.cs = true)
     (hr : q.val.isRange = true → outer.ext.has Gen.EXT_RANGE_VALUES = true)
@@ -2921,39 +2925,54 @@ example : SameRecipe (α := Rat) (fun c => c = ' ')
 /-- **A braces body that consists only of whitespace and block-comment tokens is "no quantity"** — `comp_body`
     (`src/parser/step.rs`: `quantity_not_empty = tokens.any(|t| !matches!(t.kind, ws | block comment))`).  The
     parser stands anywhere in ARBITRARY tokens, in front of `name { q } rest`: `name` holds no `{` and no marker
-    `@ # ~`, `q` only whitespace and block comments (`w10bBlank`).  Then `comp_body` succeeds with the name `name`
-    and `quantity = None`, whatever `q` is — in particular the same as for `q = []` (`@salt{ [- c -] }` against
-    `@salt{}`).  Used alike by `ingredient`, `cookware` and `timer`, which all read their body through `comp_body`
+    `@ # ~`, `q` only whitespace and block comments (`w10bBlank`).  Then `comp_body` returns the body with the name
+    `name`, the span of the braces and `quantity = None`, the cursor behind the `}`, nothing pushed — whatever `q`
+    is, in particular as for `q = []` (`@salt{ [- c -] }` against `@salt{}`; only the END of the brace span and the
+    cursor move with the length of `q`).  Used alike by `ingredient`, `cookware` and `timer`, which all read their body through `comp_body`
     and branch on `body.quantity` only. -/
-theorem C17_comment_only_braces_is_no_quantity {α : Type} [Arith α] (s : BP α) (name q rest : List Tok) (ob cb : Tok)
-    (hs : s.toks.drop s.cur = name ++ ob :: (q ++ cb :: rest))
+theorem C17_comment_only_braces_is_no_quantity {α : Type} [Arith α] (s : BP α) (A name q rest : List Tok) (ob cb : Tok)
+    (ht : s.toks = A ++ (name ++ ob :: (q ++ cb :: rest))) (hc : s.cur = A.length)
     (hn : ∀ t ∈ name, (t.kind == .openBrace || isMarker t.kind) = false)
     (hob : ob.kind = .openBrace) (hcb : cb.kind = .closeBrace)
     (hq : ∀ t ∈ q, w10bBlank t = true) :
-    ∃ b, (compBody s).1 = some b ∧ b.name = name ∧ b.quantity = none :=
-  w10b_compBody_blank s name q rest ob cb hs hn hob hcb hq
+    compBody s = (some ⟨name, some ⟨ob.start, cb.stop⟩, none⟩,
+      { s with cur := A.length + name.length + 1 + q.length + 1 }) := by
+  rw [compBody_run s A name ob q cb rest ht hc hn hob
+    (fun t ht' h => by have := w10b_blank_noClose q hq t ht'; simp [h] at this) hcb]
+  have : q.any (fun t => !isPadK t) = false := w10b_any_blank q hq
+  rw [this]; rfl
 
 /-- the contrast (so that the statement above is not true of a parser that never reads a quantity): one token
     between the braces that is neither whitespace nor a block comment, and the body holds the quantity tokens `q` -/
-theorem C17_solid_braces_hold_quantity {α : Type} [Arith α] (s : BP α) (name q rest : List Tok) (ob cb : Tok)
-    (hs : s.toks.drop s.cur = name ++ ob :: (q ++ cb :: rest))
+theorem C17_solid_braces_hold_quantity {α : Type} [Arith α] (s : BP α) (A name q rest : List Tok) (ob cb : Tok)
+    (ht : s.toks = A ++ (name ++ ob :: (q ++ cb :: rest))) (hc : s.cur = A.length)
     (hn : ∀ t ∈ name, (t.kind == .openBrace || isMarker t.kind) = false)
     (hob : ob.kind = .openBrace) (hcb : cb.kind = .closeBrace)
-    (hq : ∀ t ∈ q, (t.kind == .closeBrace) = false) (hsolid : ∃ t ∈ q, w10bBlank t = false) :
-    ∃ b, (compBody s).1 = some b ∧ b.name = name ∧ b.quantity = some q :=
-  w10b_compBody_solid s name q rest ob cb hs hn hob hcb hq hsolid
+    (hq : ∀ t ∈ q, t.kind ≠ .closeBrace) (hsolid : ∃ t ∈ q, w10bBlank t = false) :
+    compBody s = (some ⟨name, some ⟨ob.start, cb.stop⟩, some q⟩,
+      { s with cur := A.length + name.length + 1 + q.length + 1 }) := by
+  rw [compBody_run s A name ob q cb rest ht hc hn hob hq hcb]
+  have : q.any (fun t => !isPadK t) = true := by
+    obtain ⟨t, ht', h⟩ := hsolid
+    rw [List.any_eq_true]
+    exact ⟨t, ht', by simp only [w10bBlank] at h; simp [isPadK, h]⟩
+  rw [this]; rfl
 
 /-! non-vacuity: the tokens of `@salt{ [- c -] }` (cursor behind the `@`), and of `@salt{ 1 }` -/
 def C17_w10Toks (q : List Tok) : List Tok :=
   [tk .at ['@']] ++ ([tk .word "salt".toList] ++ tk .openBrace ['{'] :: (q ++ tk .closeBrace ['}'] :: [tk .ws [' ']]))
-example : ∃ b, (compBody (⟨C17_w10Toks [tk .ws [' '], tk .blockComment "[- c -]".toList, tk .ws [' ']], 1, ⟨0⟩, toyCharSpec, #[], none⟩ : BP Rat)).1
-    = some b ∧ b.name = [tk .word "salt".toList] ∧ b.quantity = none :=
-  C17_comment_only_braces_is_no_quantity _ _ [tk .ws [' '], tk .blockComment "[- c -]".toList, tk .ws [' ']] [tk .ws [' ']] _ _ rfl
-    (by decide) rfl rfl (by decide)
-example : ∃ b, (compBody (⟨C17_w10Toks [tk .ws [' '], tk .int ['1'], tk .ws [' ']], 1, ⟨0⟩, toyCharSpec, #[], none⟩ : BP Rat)).1
-    = some b ∧ b.name = [tk .word "salt".toList] ∧ b.quantity = some [tk .ws [' '], tk .int ['1'], tk .ws [' ']] :=
-  C17_solid_braces_hold_quantity _ _ [tk .ws [' '], tk .int ['1'], tk .ws [' ']] [tk .ws [' ']] _ _ rfl
-    (by decide) rfl rfl (by decide) ⟨tk .int ['1'], by decide, by decide⟩
+example : (compBody (⟨C17_w10Toks [tk .ws [' '], tk .blockComment "[- c -]".toList, tk .ws [' ']], 1, ⟨0⟩, toyCharSpec, #[], none⟩ : BP Rat)).1.map
+      (fun b => (b.name, b.quantity)) = some ([tk .word "salt".toList], none) := by
+  rw [C17_comment_only_braces_is_no_quantity _ [tk .at ['@']] [tk .word "salt".toList]
+    [tk .ws [' '], tk .blockComment "[- c -]".toList, tk .ws [' ']] [tk .ws [' ']] (tk .openBrace ['{']) (tk .closeBrace ['}']) rfl rfl
+    (by decide) rfl rfl (by decide)]
+  rfl
+example : (compBody (⟨C17_w10Toks [tk .ws [' '], tk .int ['1'], tk .ws [' ']], 1, ⟨0⟩, toyCharSpec, #[], none⟩ : BP Rat)).1.map
+      (fun b => (b.name, b.quantity)) = some ([tk .word "salt".toList], some [tk .ws [' '], tk .int ['1'], tk .ws [' ']]) := by
+  rw [C17_solid_braces_hold_quantity _ [tk .at ['@']] [tk .word "salt".toList]
+    [tk .ws [' '], tk .int ['1'], tk .ws [' ']] [tk .ws [' ']] (tk .openBrace ['{']) (tk .closeBrace ['}']) rfl rfl
+    (by decide) rfl rfl (by decide) ⟨tk .int ['1'], by decide, by decide⟩]
+  rfl
 
 /-- **Ingredient: blanks and block comments inside braces that hold no quantity, component level.**  The same
     abstract ingredient `c` (any modifiers, name, alias, note; with or without quantity) spelled with the padding
